@@ -256,6 +256,8 @@ def c13_sed(rec, case):
     flux = 10. ** rng.uniform(-1, 2, (n_ap, n_wav))
     s.flux = flux * u.mJy
     s.error = 0.1 * flux * u.mJy
+    if n_ap > 1:
+        ap_au = np.asarray(s.apertures.to(u.au).value, dtype=float)     # the table as stored (a pc table is not bit-identical after the round trip)
     req_au = np.array([ap_au[int(x[1:])] if isinstance(x, str) else x for x in c['req_spec']], dtype=float)
     below = n_ap > 1 and bool(np.any(req_au < ap_au[0] * (1 - 1e-12)))
     req = req_au.copy() if not c['as_quantity'] else (req_au * u.au).to(u.pc)
@@ -273,12 +275,29 @@ def c13_sed(rec, case):
     got = np.asarray(getattr(got, 'value', got))
     exp = np.repeat(flux[0][:, None], len(req_au), axis=1) if n_ap == 1 else _interp_oracle(ap_au, flux.T, req_au)
     ok &= rec.expect(got.shape == exp.shape and close(got, exp, 1e-8), 'sed_interp_values', 'SED.interpolate values wrong (request as %s)' % ('Quantity in pc' if c['as_quantity'] else 'bare AU'), case)
+    # the table of THIS SED at the time of the call: re-scaled copies and re-assigned tables are interpolated
+    # on their own values, whatever was interpolated before
+    if n_ap > 1:
+        try:
+            s2 = s.scale_to_distance((2.5 * u.kpc).to(u.cm).value)
+            got2 = s2.interpolate(req_au.copy())
+            got2 = np.asarray(getattr(got2, 'value', got2))
+            ok &= rec.expect(close(got2, exp / 2.5 ** 2, 1e-8), 'sed_interp_current_table', 'SED.interpolate on a copy re-scaled to 2.5 kpc (after an earlier '
+                             'interpolation of the original) does not return the re-scaled table\'s interpolant', case)
+            s.flux = 3. * flux * u.mJy
+            got3 = s.interpolate(req_au.copy())
+            got3 = np.asarray(getattr(got3, 'value', got3))
+            ok &= rec.expect(close(got3, 3. * exp, 1e-8), 'sed_interp_current_table', 'SED.interpolate after the fluxes were re-assigned returns the interpolant of the OLD table', case)
+            s.flux = flux * u.mJy
+        except Exception as e:
+            rec.fail('sed_interp_crash', 'SED.interpolate on a re-scaled / re-assigned SED raised %s: %s' % (type(e).__name__, e), case)
+            return False
     # wavelength-dependent variant: at every filter wavelength equal to an SED wavelength, the value is the
     # interpolant at that filter's aperture
     if n_ap > 1 and c.get('variable'):
         fidx = sorted(rng.choice(n_wav, size=min(3, n_wav), replace=False).tolist())
         fw = wav[fidx]
-        fap = np.clip(10. ** rng.uniform(np.log10(ap_au[0]), np.log10(ap_au[-1]), len(fidx)), ap_au[0], ap_au[-1] * 0.99)
+        fap = np.clip(10. ** rng.uniform(np.log10(ap_au[0]), np.log10(ap_au[-1]), len(fidx)), ap_au[0], max(ap_au[0], ap_au[-1] * 0.99))      # (a table narrower than 1% keeps the lower end)
         perm = rng.permutation(len(fidx))
         try:
             v = s.interpolate_variable(fw[perm].copy(), fap[perm].copy())
@@ -678,6 +697,19 @@ def c19_file(rec, case):
         f.close()
         data = open(fn, 'rb').read()
         offsets = c.get('offsets') or range(len(data))
+        if c.get('frame_cuts'):
+            # additionally cut at (and next to) every boundary between the pickle frames actually present in
+            # the file, however the writer chose to split its records into frames
+            import pickle
+            cuts = set()
+            with open(fn, 'rb') as fh:
+                while True:
+                    try:
+                        pickle.load(fh)
+                    except EOFError:
+                        break
+                    cuts.add(fh.tell())
+            offsets = sorted(set(offsets) | set(b + e for b in cuts for e in (-1, 0, 1) if 0 <= b + e < len(data)))
         n_read = 0
         for off in offsets:
             tn = os.path.join(d, 'cut.fitinfo')
@@ -713,7 +745,7 @@ def run_c19(tier, seed):
     kmax = 3 if tier == 'quick' else 4
     rec = Recorder('C19', 'EXHAUSTIVE truncation at every byte offset 0..len-1 of fit output files written by the real FitInfoFile with 1..%d records of varying '
                           'size (0..5 fits, NaN chi2), with and without stored predicted fluxes; plus one file holding a record of 70000 fits cut at a strided '
-                          'sample of offsets; outcome must be an error or an exact prefix; distinct = (records, with_fluxes, offset)' % kmax)
+                          'sample of offsets and at/next to every pickle-frame boundary found in the file; outcome must be an error or an exact prefix; distinct = (records, with_fluxes, offset)' % kmax)
     rng = np.random.default_rng(seed + 19)
     total = 0
     for k in range(1, kmax + 1):
@@ -723,7 +755,7 @@ def run_c19(tier, seed):
             rec.case(key=(k, wf), nontrivial=True, sample=case if k == 2 else None)
     # count offsets as evaluations
     rec.exhaustive = True
-    big = dict(seed=seed, tag='c19', pseed=7, k=2, with_fluxes=True, sizes=[3, 70000])
+    big = dict(seed=seed, tag='c19', pseed=7, k=2, with_fluxes=True, sizes=[3, 70000], frame_cuts=True)
     from sedfitter.fit_info import FitInfoFile
     # strided offsets for the big file (computed from its length inside the replay function: give explicit list)
     big['offsets'] = list(range(2000, 2600000, 1 if False else 65521))[:40 if tier == 'quick' else 400]
